@@ -113,7 +113,46 @@ def h_kerr(env, d, cutoff, mode, kind):
         env.equal("mixed: D rho D^+", newr, env.np.outer(phases, env.np.conj(phases)) * rho)
 
 
-HARNESSES = {"representation": h_representation, "apply_on_modes": h_apply_on_modes, "kerr": h_kerr}
+def _oracle_operator(env, M, modes, d, b):
+    E = fc.embed_matrix(env, M, tuple(modes), d)
+    return env._arr([[fc.fock_element(env, E, out, inp) for inp in b] for out in b])
+
+
+def h_apply_sequence(env, d, cutoff, modes_list):
+    """several gates in ONE process through the real (cached) application path of the pure Fock
+    simulator - the same mode set addressed in different orders - equal the product of the definitions."""
+    conn = cm.connector(env)
+    b = fc.basis(d, cutoff)
+    psi, _ = fc.generic_state_vector(env, d, cutoff)
+    env.functions += [core.fn_ref(ppl._do_apply_passive_linear), core.fn_ref(ppl._apply_passive_gate_matrix_to_state),
+                      core.fn_ref(fsteps.nb_calculate_index_list_for_appling_interferometer), core.fn_ref(ppl._get_interferometer_on_fock_space)]
+    cur_, want = psi, psi
+    for j, modes in enumerate(modes_list):
+        modes = tuple(modes)
+        M = env.cplx_mat("g%d" % j, len(modes))
+        cur_ = ppl._do_apply_passive_linear(cur_, M, d, cutoff, modes, conn)
+        want = _oracle_operator(env, M, modes, d, b) @ want
+    env.equal("state vector after the sequence", cur_, want)
+
+
+def h_bs5050(env, d, cutoff, modes):
+    """the closed-form Beamsplitter5050 path of the pure Fock simulator equals the definition for the
+    documented matrix [[1,-1],[1,1]]/sqrt(2) on the given ordered modes."""
+    modes = tuple(modes)
+    conn = cm.connector(env)
+    cfg = cm.config(env, cutoff=cutoff)
+    b = fc.basis(d, cutoff)
+    psi, _ = fc.generic_state_vector(env, d, cutoff)
+    st = PureFockState(d=d, connector=conn, config=cfg)
+    st.state_vector = psi.copy()
+    env.functions += [core.fn_ref(ppl.beamsplitter5050), core.fn_ref(ppl._apply_beamsplitter5050), core.fn_ref(ppl._beamsplitter5050_coeff)]
+    new = ppl.beamsplitter5050(st, pq.Beamsplitter5050().on_modes(*modes), None)[0].state.state_vector
+    r = 1 / env.np.sqrt(2)
+    U = env._arr([[r, -r], [r, r]]) if env.mode == "sym" else numpy.array([[1, -1], [1, 1]]) / numpy.sqrt(2)
+    env.equal("state vector", new, _oracle_operator(env, U, modes, d, b) @ psi)
+
+
+HARNESSES = {"representation": h_representation, "apply_on_modes": h_apply_on_modes, "kerr": h_kerr, "apply_sequence": h_apply_sequence, "bs5050": h_bs5050}
 
 
 def instances(tier, seed):
@@ -134,6 +173,13 @@ def instances(tier, seed):
                 out.append(("apply_on_modes", {"d": d, "cutoff": c, "modes": list(m), "sim": "pure"}))
                 if c <= 3 and d <= 3 and (tier == "thorough" or (d, c) != (3, 3)):
                     out.append(("apply_on_modes", {"d": d, "cutoff": c, "modes": list(m), "sim": "mixed"}))
+    seqs = [(2, 3, [[0, 1], [1, 0]]), (3, 2, [[2, 0], [0, 2], [1]]), (3, 3, [[1, 2], [2, 1]])]
+    if tier == "thorough":
+        seqs += [(3, 3, [[0, 2], [2, 0], [0, 2]]), (2, 4, [[1, 0], [0, 1]]), (4, 2, [[3, 1], [1, 3], [0, 2]])]
+    for d, c, ml in seqs:
+        out.append(("apply_sequence", {"d": d, "cutoff": c, "modes_list": ml}))
+    for d, c, m in [(2, 3, (0, 1)), (2, 3, (1, 0)), (3, 2, (2, 0)), (3, 3, (1, 0))] + ([(3, 3, (0, 2)), (2, 4, (1, 0))] if tier == "thorough" else []):
+        out.append(("bs5050", {"d": d, "cutoff": c, "modes": list(m)}))
     for d, c in [(1, 3), (2, 3)] if tier == "quick" else [(1, 4), (2, 3), (3, 3)]:
         for mode in range(d):
             out.append(("kerr", {"d": d, "cutoff": c, "mode": mode, "kind": "Kerr"}))
